@@ -26,8 +26,7 @@ def _n(x, lo, hi, default=None):
     """Clamp arbitrary JSON to an int in [lo, hi] (executors are total over shrunk cases)."""
     if isinstance(x, bool) or not isinstance(x, (int, float)):
         x = lo if default is None else default
-    x = int(x)
-    return lo + (x - lo) % (hi - lo + 1) if not (lo <= x <= hi) else x
+    return max(lo, min(hi, int(x)))
 
 
 def _lst(x):
